@@ -252,17 +252,12 @@ pub fn compare_traces(pred: &Pred, act: &Actual, top_ok_and_events_agree: Option
                 ));
             }
             let (pr, ar) = (pr.unwrap(), ar.unwrap());
-            // content: owned by C03 when the *content* is wrong (other events / other data);
-            // owned by C04 when only the composition (order, position, wrapping) differs
             let content_differs = normalised(&pr.events) != normalised(&ar.events) || pr.events.len() != ar.events.len();
             let data_differs = pr.data != ar.data || pr.msg_values != ar.msg_values;
-            let mut owners: Vec<&'static str> = vec![];
-            if content_differs || data_differs {
-                owners.push("C03");
-            }
-            if pr.events != ar.events || data_differs {
-                owners.push("C04");
-            }
+            // "exactly the events and response data the sub-message produced": any difference,
+            // a permutation of attributes included, is C03's; the composition is C04's as well
+            let _ = content_differs;
+            let owners: Vec<&'static str> = vec!["C03", "C04"];
             let _ = top_ok_and_events_agree;
             return Some(Disc { owners, sig: "reply:content".into(), msg: format!("trace position {} ({}): Reply carries events [{}] data {:?}; the sub-message produced events [{}] data {:?}", i, entry_brief(p), events_str(&ar.events), ar.data.as_deref().map(hexs), events_str(&pr.events), pr.data.as_deref().map(hexs)), model_free: false });
         }
